@@ -249,6 +249,32 @@ def hints_after_crash(v, tier, tag):
         shutil.rmtree(os.path.join(OUT, "work", tag + "-hc"), ignore_errors=True)
 
 
+def reclaim_after_crash(v, tier, tag):
+    """C13 after a kill and after a power loss (all-eligible configurations): every second crash / power image of the
+    generated behaviours is merged right after recovery, before anything is written; the store must then be exactly as
+    large as its live data (TraceFs: C13_AfterCrash).  Also for entries above the write buffer (torn tails)."""
+    import fscalls
+    for mode, sync, judge in (("crash", "none", "C13"), ("power", "always", "C13p")):
+        gfile, ng = fscalls.gen_behaviours(v, tier, f"{tag}-rc{mode}", sync)
+        lines = open(gfile).read().splitlines()
+        keep = [lines[0]] + [x for x in lines[1:] if json.loads(x)["cfg"]["thSmall"] >= 1000000]
+        if tier == "quick":
+            keep = [keep[0]] + [x for n, x in enumerate(keep[1:]) if (n + seed()) % 2 == 0]
+        open(gfile, "w").write("\n".join(keep) + "\n")
+        rs, nrs = fscalls.random_behaviours(f"{tag}-rc{mode}", sync, 6 if tier == "quick" else 40, 8, "size")
+        files = []
+        for name, bf, n, pts in (("rc", gfile, len(keep) - 1, "1000000"), ("rc-size", rs, nrs, "120")):
+            pre = os.path.join(OUT, "work", f"{tag}-rc{mode}", name)
+            f1, sums, aborts = run_shards("fsdrive", [mode, bf, pre, "--seed", str(seed()), "--max-points", pts], pre, min(NCPU, max(1, n)))
+            files += f1
+            v.cov[f"{mode}_probes_with_a_merge_right_after_recovery"] = v.cov.get(f"{mode}_probes_with_a_merge_right_after_recovery", 0) + sum(x.get("probes", 0) for x in sums) // 2
+            if aborts:
+                v.cov.setdefault("process_deaths_in_code_under_test", []).extend(aborts[:5])
+        fscalls.validate(v, judge, files, f"{tag}-rc{mode}", report_as="C13")
+        if not v.violations:
+            shutil.rmtree(os.path.join(OUT, "work", f"{tag}-rc{mode}"), ignore_errors=True)
+
+
 def model_check_c12_crash(v, tier):
     """HintsAreAccelerator also after a kill (MaxCrashes = 1), and the vacuity guard: with the repair of D8
     switched off (a file recovered from an empty hint file stays unknown to merge selection) TLC must find the
@@ -283,6 +309,8 @@ def check(prop, tier):
             failed_merges(v, tier, tag)
         if prop == "C12" and not v.violations:
             hints_after_crash(v, tier, tag)
+        if prop == "C13" and not v.violations:
+            reclaim_after_crash(v, tier, tag)
         if prop in ("C01", "C02", "C12", "C13") and not v.violations:
             import fscalls
             keep = {"C01": lambda b: True, "C02": lambda b: True,
